@@ -234,7 +234,7 @@ func c16WS(c *Ctx, i int) {
 		id := 1 + r.Intn(3)
 		switch r.Intn(7) {
 		case 0, 1:
-			acts = append(acts, cnAction{Op: "fail", Arg: int64(1 + r.Intn(4))})
+			acts = append(acts, cnAction{Op: "fail", Arg: []int64{1, 2, 3, 4, 6}[r.Intn(5)]})
 		case 2, 3:
 			acts = append(acts, cnAction{Op: "subscribe", ID: id, Query: 4}) // the query with the flaky field
 		case 4:
@@ -265,7 +265,7 @@ func c16WS(c *Ctx, i int) {
 			nErr++
 			msg, _ := m["message"].(string)
 			switch msg {
-			case "Internal server error", "safe-text", "duplicate subscription", "too many subscriptions", "unknown message type":
+			case "Internal server error", "safe-text", "app-client-text", "duplicate subscription", "too many subscriptions", "unknown message type":
 			default:
 				rep.Fail("impl_ne_spec", nil, cs, map[string]interface{}{"what": "an error envelope carries text that is not a safe error's message", "message": msg})
 				return
